@@ -28,6 +28,7 @@ def mentions(n, name):
 
 def run(ctx):
     F = ctx.facts
+    r25_5(ctx)
     for rid, t in [('R25.1', 'every forward of a finding passes the exit-code accounting'),
                    ('R25.2', 'all component results flow into the process exit status'),
                    ('R25.3', 'executors accumulate the per-file results'),
@@ -237,3 +238,23 @@ def run(ctx):
            '%s:%d' % (ru['file'], ru['line']))
     rc = F.one('ProcessExecutor::reportInternalChildErr')
     ctx.note('ProcessExecutor::reportInternalChildErr (cppcheckError) does not touch the result; the failure is counted by handleRead on the premature end of pipe (C21)')
+
+
+def r25_5(ctx):
+    """R25.5  the per-file exit-code accumulator is cleared only where a file's accounting starts: CppCheckLogger::resetExitCode() is called from the prologue of
+    CppCheck::checkInternal and nowhere else.  (CppCheck::analyseWholeProgram returns mLogger->exitcode(); a finding reported a second time is dropped by the
+    duplicate filter *before* the accounting statement, so its contribution exists only as the value left from its first report - clearing the accumulator in
+    between loses it.)"""
+    F = ctx.facts
+    ctx.rule('R25.5', 'the exit-code accumulator is reset only at the start of a file\'s analysis')
+    callers = []
+    for f in F.all_fns():
+        for c in f['calls']:
+            if c['f'].split('(')[0] == 'CppCheck::CppCheckLogger::resetExitCode':
+                callers.append((f, c))
+    ctx.floor('R25.5 callers of CppCheckLogger::resetExitCode', len(callers), 1)
+    for f, c in callers:
+        ok = f['name'] == 'CppCheck::checkInternal'
+        ctx.ob('R25.5', 'reset-exitcode:%s' % f['name'], ok, ('%s resets the accumulator where a file\'s analysis starts' % f['name']) if ok else
+               ('%s calls CppCheckLogger::resetExitCode() (line %s): a whole-program finding that was already reported once is dropped as duplicate before the accounting statement, '
+                'so after this reset the run exits 0 although the finding was printed' % (f['name'], c.get('l'))), '%s:%s' % (f['file'], c.get('l')))
